@@ -127,6 +127,10 @@ def compute_features_2d(sigs, fs, f_range, compute_features_kwargs=None, axis=0,
             dfs_features = list(progress_bar(mapping, progress, len(sigs)))
 
     elif axis is None:
+        # No progress bar is shown for a single flattened signal, the option is still validated
+        if progress is not None and progress not in ['tqdm', 'tqdm.notebook']:
+            raise ValueError("Progress bar option not understood.")
+
         # Compute features after flattening the 2d array (i.e. calculated across a 1d signal)
         sig_flat = sigs.flatten()
 
@@ -159,6 +163,9 @@ def compute_features_2d(sigs, fs, f_range, compute_features_kwargs=None, axis=0,
 
                 elif burst_method == 'amp':
                     dfs_features[idx] = detect_bursts_amp(dfs_features[idx], **thresholds)
+
+                else:
+                    raise ValueError("Unrecognized 'burst_method': {burst}".format(burst=burst_method))
 
     else:
         raise ValueError("The axis kwarg must be either 0 or None.")
